@@ -236,7 +236,7 @@ theorem spec_parseIndexExpr (lhs : Expr) (st : PState toks) (hl : LhsOK lhs st) 
     obtain ⟨i2, i3, endSp⟩ := r
     obtain ⟨h2a, h2b, hend⟩ := h2
     have f2 := hend.fwd
-    refine Ok.pure ⟨⟨surround_ok hS hend.isStop (Nat.le_refl _) (by nums) (Nat.le_refl _), ?_, trivial, ?_, ?_⟩,
+    refine Ok.pure ⟨⟨surround_ok hS hend.isStop (Nat.le_refl _) (by nums) (Nat.le_refl _), ?_, trivial, ?_, ?_, rfl⟩,
       rfl, by nums, by nums⟩
     · exact hwf.mono (Nat.le_refl _) (by nums)
     · exact h2a.mono (Nat.le_refl _) (by nums)
@@ -254,7 +254,7 @@ theorem spec_parseIndexExpr (lhs : Expr) (st : PState toks) (hl : LhsOK lhs st) 
       obtain ⟨i3, endSp⟩ := r
       obtain ⟨h3a, hend⟩ := h3
       have f3 := hend.fwd
-      refine Ok.pure ⟨⟨surround_ok hS hend.isStop (Nat.le_refl _) (by nums) (Nat.le_refl _), ?_, trivial, trivial, ?_⟩,
+      refine Ok.pure ⟨⟨surround_ok hS hend.isStop (Nat.le_refl _) (by nums) (Nat.le_refl _), ?_, trivial, trivial, ?_, rfl⟩,
         rfl, by nums, by nums⟩
       · exact hwf.mono (Nat.le_refl _) (by nums)
       · exact h3a.mono (Nat.le_refl _) (by nums)
@@ -269,7 +269,7 @@ theorem spec_parseIndexExpr (lhs : Expr) (st : PState toks) (hl : LhsOK lhs st) 
       have f4 := h4.fwd hord
       cases rb with
       | some endSp =>
-        refine Ok.pure ⟨⟨surround_ok hS h4.isStop (Nat.le_refl _) (by nums) (Nat.le_refl _), ?_, ?_⟩,
+        refine Ok.pure ⟨⟨surround_ok hS h4.isStop (Nat.le_refl _) (by nums) (Nat.le_refl _), ?_, ?_, rfl⟩,
           rfl, by nums, by nums⟩
         · exact hwf.mono (Nat.le_refl _) (by nums)
         · exact h3.wf (by nums) (by nums)
@@ -286,7 +286,7 @@ theorem spec_parseIndexExpr (lhs : Expr) (st : PState toks) (hl : LhsOK lhs st) 
           obtain ⟨i2, i3, endSp⟩ := r
           obtain ⟨h6a, h6b, hend⟩ := h6
           have f6 := hend.fwd
-          refine Ok.pure ⟨⟨surround_ok hS hend.isStop (Nat.le_refl _) (by nums) (Nat.le_refl _), ?_, ?_, ?_, ?_⟩,
+          refine Ok.pure ⟨⟨surround_ok hS hend.isStop (Nat.le_refl _) (by nums) (Nat.le_refl _), ?_, ?_, ?_, ?_, rfl⟩,
             rfl, by nums, by nums⟩
           · exact hwf.mono (Nat.le_refl _) (by nums)
           · exact h3.wf (by nums) (by nums)
@@ -306,7 +306,7 @@ theorem spec_parseIndexExpr (lhs : Expr) (st : PState toks) (hl : LhsOK lhs st) 
             obtain ⟨i3, endSp⟩ := r
             obtain ⟨h7a, hend⟩ := h7
             have f7 := hend.fwd
-            refine Ok.pure ⟨⟨surround_ok hS hend.isStop (Nat.le_refl _) (by nums) (Nat.le_refl _), ?_, ?_, trivial, ?_⟩,
+            refine Ok.pure ⟨⟨surround_ok hS hend.isStop (Nat.le_refl _) (by nums) (Nat.le_refl _), ?_, ?_, trivial, ?_, rfl⟩,
               rfl, by nums, by nums⟩
             · exact hwf.mono (Nat.le_refl _) (by nums)
             · exact h3.wf (by nums) (by nums)
@@ -346,7 +346,7 @@ theorem spec_parseSuffixExpr : ∀ (fuel : Nat) (lhs : Expr) (st : PState toks),
       intro name st2 h2
       have f2 := h2.fwd
       dsimp only
-      refine cont _ st2 ⟨⟨surround_ok hS h2.isStop (Nat.le_refl _) (by nums) (Nat.le_refl _), ?_, ?_⟩, rfl, by nums, by nums⟩
+      refine cont _ st2 ⟨⟨surround_ok hS h2.isStop (Nat.le_refl _) (by nums) (Nat.le_refl _), ?_, ?_, rfl, rfl⟩, rfl, by nums, by nums⟩
       · exact hwf.mono (Nat.le_refl _) (by nums)
       · exact h2.spanOK (by nums) (by nums)
     | none =>
@@ -395,12 +395,12 @@ theorem spec_parseSuffixExpr : ∀ (fuel : Nat) (lhs : Expr) (st : PState toks),
             cases ts with
             | some tsp =>
               simp only [Option.getD, Option.isSome]
-              refine cont _ st6 ⟨⟨surround_ok hS h6.isStop (Nat.le_refl _) (by nums) (Nat.le_refl _), ?_, ?_⟩, rfl, by nums, by nums⟩
+              refine cont _ st6 ⟨⟨surround_ok hS h6.isStop (Nat.le_refl _) (by nums) (Nat.le_refl _), ?_, ?_, rfl⟩, rfl, by nums, by nums⟩
               · exact hwf.mono (Nat.le_refl _) (by nums)
               · exact hargs.mono (Nat.le_refl _) (by nums)
             | none =>
               simp only [Option.getD, Option.isSome]
-              refine cont _ st6 ⟨⟨surround_ok hS hend.isStop (Nat.le_refl _) (by nums) (Nat.le_refl _), ?_, ?_⟩, rfl, by nums, by nums⟩
+              refine cont _ st6 ⟨⟨surround_ok hS hend.isStop (Nat.le_refl _) (by nums) (Nat.le_refl _), ?_, ?_, rfl⟩, rfl, by nums, by nums⟩
               · exact hwf.mono (Nat.le_refl _) (by nums)
               · exact hargs.mono (Nat.le_refl _) (by nums)
         | none =>
@@ -418,7 +418,7 @@ theorem spec_parseSuffixExpr : ∀ (fuel : Nat) (lhs : Expr) (st : PState toks),
             obtain ⟨ho, hend⟩ := h5
             have f5 := hend.fwd
             dsimp only at ho hend ⊢
-            refine cont _ st5 ⟨⟨surround_ok hS hend.isStop (Nat.le_refl _) (by nums) (Nat.le_refl _), ?_, ?_, ?_⟩, rfl, by nums, by nums⟩
+            refine cont _ st5 ⟨⟨surround_ok hS hend.isStop (Nat.le_refl _) (by nums) (Nat.le_refl _), ?_, ?_, ?_, rfl, rfl⟩, rfl, by nums, by nums⟩
             · exact hwf.mono (Nat.le_refl _) (by nums)
             · exact surround_ok h4.isStart hend.isStop (by nums) (by nums) (by nums)
             · exact ho.mono (Nat.le_refl _) (by nums)
